@@ -16,8 +16,9 @@
 // original is reported as inconclusive (trusted-base anomaly), not as a helm violation.
 //
 // Don't-care zones: which error is returned; spelling variants of the digest (upper-case hex,
-// missing "sha256:" prefix) are not generated; VerifyIfPossible (helm fails closed there; the text
-// only speaks of "verification required"); expiry / revocation of keys (the text says "a key in the
+// missing "sha256:" prefix) are not generated; VerifyIfPossible / the dependency manager when NO provenance
+// file is available (proceeding is the documented behaviour; with a provenance file present a
+// failing verification must fail); expiry / revocation of keys (the text says "a key in the
 // given keyring"); OCI sources.
 package c17
 
@@ -62,7 +63,7 @@ func init() {
 	core.Register(&core.Prop{
 		ID:    "C17",
 		Level: "exploration",
-		Rule: "seeded charts packaged and signed by helm (action.Package --sign and Signatory.ClearSign) with OpenPGP RSA keys generated per worker; per chart: every byte position (stride-sampled to ~240 positions per part in the quick tier; thorough: all positions, all 8 bit flips at every 4th) of archive, clear-signed headers+body and signature armor × {bit flip, byte replacement, insertion, deletion, truncation}; structural mutants (re-signed messages with swapped / extra / missing file entries, other signer, other hash, duplicated / prefixed blocks, several clear-signed blocks (untrusted-key block vouching for a tampered archive before / after / around the genuine block, blank-line and text gaps) with the tampered archive on disk, CRLF, trailing blanks, header changes, second signature block); keyrings {signer, signer+others, others, empty, missing, secret ring, same user id other key}; keyring files rewritten in place between verifications (same path, same process: signer removed / added / file emptied / removed / replaced by rename); renamed / moved archives; through Signatory.Verify and downloader.VerifyChart (all mutants) and action.Verify, LocateChart(Verify), DownloadTo(VerifyAlways/VerifyLater) (sampled + all structural). " +
+		Rule: "seeded charts packaged and signed by helm (action.Package --sign and Signatory.ClearSign) with OpenPGP RSA keys generated per worker; per chart: every byte position (stride-sampled to ~240 positions per part in the quick tier; thorough: all positions, all 8 bit flips at every 4th) of archive, clear-signed headers+body and signature armor × {bit flip, byte replacement, insertion, deletion, truncation}; structural mutants (re-signed messages with swapped / extra / missing file entries, other signer, other hash, duplicated / prefixed blocks, several clear-signed blocks (untrusted-key block vouching for a tampered archive before / after / around the genuine block, blank-line and text gaps) with the tampered archive on disk, CRLF, trailing blanks, header changes, second signature block); keyrings {signer, signer+others, others, empty, missing, secret ring, same user id other key}; keyring files rewritten in place between verifications (same path, same process: signer removed / added / file emptied / removed / replaced by rename); renamed / moved archives; through Signatory.Verify and downloader.VerifyChart (all mutants) and action.Verify, LocateChart(Verify), DownloadTo(VerifyAlways/VerifyIfPossible/VerifyLater) (sampled + all structural) and Manager.Update(VerifyIfPossible/VerifyAlways) / Manager.Build(VerifyIfPossible) on a local-server repository dependency (the dependency whose verification must fail must give an error and must not reach charts/). " +
 			"distinct_nontrivial counts (part, mutation kind, expected outcome, entry point) tuples.",
 		Assumptions: []string{
 			"golang.org/x/crypto/openpgp (clearsign.Decode, CheckDetachedSignature, armor) is the trusted definition of 'valid signature by a key in the keyring'",
@@ -197,6 +198,8 @@ type world struct {
 	dir      string // case temp dir
 	work     string // directory holding the file pair under test
 	base     string // archive base name
+	name     string // chart name
+	version  string // chart version
 	archive  []byte
 	prov     []byte
 	sum      string // "sha256:..."
@@ -247,7 +250,8 @@ func setup(rng *rand.Rand, dir string) (*world, error) {
 		return nil, ks.err
 	}
 	w := &world{dir: dir}
-	name, _, files := chartFiles(rng)
+	name, version, files := chartFiles(rng)
+	w.name, w.version = name, version
 	src := filepath.Join(dir, "src", name)
 	for p, c := range files {
 		fp := filepath.Join(src, p)
@@ -538,6 +542,25 @@ func (c *checker) download(part, kind string, base string, archive, prov []byte,
 	})
 	c.judge("DownloadTo(VerifyAlways)", part, kind, expect, hard, vd, sum, detail)
 
+	// VerifyIfPossible (what `helm dependency build --verify` uses): a missing provenance file is
+	// tolerated (don't-care), but when one IS available a failing verification must fail the download.
+	if prov != nil {
+		dest1 := dest + "-ifpossible"
+		os.MkdirAll(dest1, 0o755)
+		defer os.RemoveAll(dest1)
+		core.Guard(c.res, "DownloadTo(VerifyIfPossible)", func() {
+			dl := downloader.ChartDownloader{Out: io.Discard, Verify: downloader.VerifyIfPossible, Keyring: ringFile, Getters: httpOnly,
+				RepositoryConfig: c.w.settings.RepositoryConfig, RepositoryCache: c.w.settings.RepositoryCache}
+			_, v, err := dl.DownloadTo(url, "", dest1)
+			vd = fromVer(v, err)
+		})
+		c.judge("DownloadTo(VerifyIfPossible)", part, kind, expect, hard, vd, sum, detail)
+		byteLevel := part == "archive" || part == "body" || part == "armor" || part == "header"
+		if !byteLevel || c.count%4 == 0 {
+			c.manager(part, kind, base, archive, prov, ringFile, expect, hard, sum, detail)
+		}
+	}
+
 	// VerifyLater: fetches both files, verifies nothing; a later VerifyChart on the saved pair decides
 	dest2 := dest + "-later"
 	os.MkdirAll(dest2, 0o755)
@@ -569,6 +592,85 @@ func (c *checker) download(part, kind string, base string, archive, prov []byte,
 	})
 	c.judge("LocateChart(url,verify)", part, kind, expect, hard, vd, sum, detail)
 	c.res.Stat("download_path_runs", 1)
+}
+
+// manager runs the dependency manager with verification on a repository (local file source)
+// that serves the given archive + provenance for the chart: Manager.Update with VerifyIfPossible
+// and VerifyAlways on a fresh parent chart, and Manager.Build(VerifyIfPossible) on a parent whose
+// lock and charts/ come from an earlier good update. A dependency whose verification must fail
+// must produce an error and must not end up in charts/.
+func (c *checker) manager(part, kind, base string, archive, prov []byte, ringFile string, expect, hard bool, sum string, detail func() string) {
+	w, s := c.w, getServer()
+	prefix := fmt.Sprintf("/m%d-%d", os.Getpid(), c.count)
+	idx, _ := yaml3.Marshal(map[string]any{"apiVersion": "v1", "generated": "2024-01-02T03:04:05Z",
+		"entries": map[string]any{w.name: []any{map[string]any{"name": w.name, "version": w.version, "apiVersion": "v2", "urls": []any{base}}}}})
+	serve := func(a, p []byte) {
+		s.set(prefix+"/index.yaml", idx)
+		s.set(prefix+"/"+base, a)
+		s.set(prefix+"/"+base+".prov", p)
+	}
+	defer func() {
+		s.set(prefix+"/index.yaml", nil)
+		s.set(prefix+"/"+base, nil)
+		s.set(prefix+"/"+base+".prov", nil)
+	}()
+	repoURL := s.base + prefix
+	httpOnly := getter.Providers{{Schemes: []string{"http", "https"}, New: getter.NewHTTPGetter}}
+	root := filepath.Join(w.dir, fmt.Sprintf("mgr%d", c.count))
+	defer os.RemoveAll(root)
+	mk := func(sub string, strat downloader.VerificationStrategy, ring string) (*downloader.Manager, string) {
+		parent := filepath.Join(root, sub, "parent")
+		os.MkdirAll(parent, 0o755)
+		cy, _ := yaml3.Marshal(map[string]any{"apiVersion": "v2", "name": "parent", "version": "0.1.0",
+			"dependencies": []any{map[string]any{"name": w.name, "version": w.version, "repository": repoURL}}})
+		if _, err := os.Stat(filepath.Join(parent, "Chart.yaml")); err != nil {
+			os.WriteFile(filepath.Join(parent, "Chart.yaml"), cy, 0o644)
+		}
+		cfg := filepath.Join(root, sub, "repositories.yaml")
+		os.WriteFile(cfg, []byte("apiVersion: \"\"\nrepositories:\n- name: local\n  url: "+repoURL+"\n"), 0o644)
+		cache := filepath.Join(root, sub, "cache")
+		os.MkdirAll(cache, 0o755)
+		return &downloader.Manager{Out: io.Discard, ChartPath: parent, Verify: strat, Keyring: ring, Getters: httpOnly, RepositoryConfig: cfg, RepositoryCache: cache}, filepath.Join(parent, "charts", base)
+	}
+	stored := func(ep, stored string, before []byte, err error) {
+		got, rerr := os.ReadFile(stored)
+		class := fmt.Sprintf("%s · %s/%s", ep, part, kind)
+		switch {
+		case !expect && rerr == nil && bytes.Equal(got, archive) && !bytes.Equal(got, before):
+			c.res.Add("unverified-dependency-stored-in-charts", class, "%s (err=%v) left the dependency whose verification must fail in charts/%s | %s", ep, err, base, detail())
+		case expect && err == nil && (rerr != nil || !bytes.Equal(got, archive)):
+			c.res.Add("verified-dependency-not-stored", class, "%s succeeded but charts/%s does not hold the verified archive (%v) | %s", ep, base, rerr, detail())
+		}
+	}
+	serve(archive, prov)
+	for _, st := range []struct {
+		name  string
+		strat downloader.VerificationStrategy
+	}{{"Manager.Update(VerifyIfPossible)", downloader.VerifyIfPossible}, {"Manager.Update(VerifyAlways)", downloader.VerifyAlways}} {
+		m, dst := mk(st.name, st.strat, ringFile)
+		var err error
+		core.Guard(c.res, st.name, func() { err = m.Update() })
+		c.judge(st.name, part, kind, expect, hard, verdict{ok: err == nil, err: err, hash: sum}, sum, detail)
+		stored(st.name, dst, nil, err)
+	}
+	// Build from a lock: first a good state (genuine pair, signer-only keyring), then the pair under test
+	if base == w.base {
+		const ep = "Manager.Build(VerifyIfPossible)"
+		serve(w.archive, w.prov)
+		m0, dst := mk(ep, downloader.VerifyIfPossible, w.ringA)
+		if err := m0.Update(); err != nil {
+			c.res.Add("rejected-but-must-pass", "Manager.Update(VerifyIfPossible) · build-setup/untouched", "setting up the lock with the genuine pair failed: %v | %s", err, detail())
+			return
+		}
+		before, _ := os.ReadFile(dst)
+		serve(archive, prov)
+		m, _ := mk(ep, downloader.VerifyIfPossible, ringFile)
+		var err error
+		core.Guard(c.res, ep, func() { err = m.Build() })
+		c.judge(ep, part, kind, expect, hard, verdict{ok: err == nil, err: err, hash: sum}, sum, detail)
+		stored(ep, dst, before, err)
+	}
+	c.res.Stat("manager_path_runs", 1)
 }
 
 // ---------------------------------------------------------------- run
